@@ -304,6 +304,27 @@ def mk_range_float(ex):
     return t, st
 
 
+def mk_base_range(kind):
+    """BaseRange (validated by the Python float_validate / int_validate) built by the REAL constructor on symbolic bounds"""
+    def mk(ex):
+        st = {"xl": ex.flag("exclude_low"), "xh": ex.flag("exclude_high")}
+        lo_none, hi_none = ex.flag("low.none"), ex.flag("high.none")
+        if lo_none and hi_none:
+            hi_none = False
+        mkb = ex.fp if kind == "float" else ex.int
+        st["lo"] = None if lo_none else mkb("low")
+        st["hi"] = None if hi_none else mkb("high")
+        if kind == "float":
+            for b in (st["lo"], st["hi"]):
+                if b is not None:
+                    ex.assume(z3.Not(z3.fpIsNaN(b.f)) if ex.sym else b == b)
+        from traits.api import BaseRange
+        with cenv.python_side_env() if ex.sym else _Null():
+            t = BaseRange(st["lo"], st["hi"], exclude_low=st["xl"], exclude_high=st["xh"])
+        return t, st
+    return mk
+
+
 def mk_range_float_const(ex):
     lo, hi = [(0.0, 1.0), (-2.5, 9007199254740993.0), (None, 1e10), (-0.0, None)][ex.choice("bounds", 4)]
     st = {"xl": ex.flag("exclude_low"), "xh": ex.flag("exclude_high"), "lo": lo, "hi": hi}
@@ -349,6 +370,16 @@ CONFIGS = {
     "Bool": (simple(Bool), dom_bool, ["none", "bool", "int", "float", "npbool", "npint", "str"]),
     "CInt": (simple(CInt), dom_cint, NUMERIC + TEXT + ["object"]),
     "CFloat": (simple(CFloat), dom_cfloat, FNUM + TEXT + ["object"]),
+    # the pure-Python counterparts (no fast validator: C hands the value to the Python validate method)
+    "BaseInt": (simple(lambda: __import__("traits.api", fromlist=["x"]).BaseInt()), dom_int, ["none", "bool", "int", "intsub", "float", "indexobj", "npint", "str", "object"]),
+    "BaseFloat": (simple(lambda: __import__("traits.api", fromlist=["x"]).BaseFloat()), dom_float, ["none", "bool", "int64", "inthuge", "float", "floatsub", "floatobj", "indexobj", "npfloat", "str", "object"]),
+    "BaseComplex": (simple(lambda: __import__("traits.api", fromlist=["x"]).BaseComplex()), dom_complex, ["none", "bool", "int64", "float", "complex", "complexsub", "complexobj", "str"]),
+    "BaseStr": (simple(lambda: __import__("traits.api", fromlist=["x"]).BaseStr()), dom_str, ["none", "int", "float"] + TEXT + ["object"]),
+    "BaseBool": (simple(lambda: __import__("traits.api", fromlist=["x"]).BaseBool()), dom_bool, ["none", "bool", "int", "float", "npbool", "str"]),
+    "BaseCInt": (simple(lambda: __import__("traits.api", fromlist=["x"]).BaseCInt()), dom_cint, ["none", "bool", "int", "float", "str", "object"]),
+    "BaseCFloat": (simple(lambda: __import__("traits.api", fromlist=["x"]).BaseCFloat()), dom_cfloat, ["none", "bool", "int64", "float", "str", "object"]),
+    "BaseRangeFloat": (mk_base_range("float"), dom_range_float, ["none", "bool", "float", "floatsub", "floatobj", "npfloat", "str", "object"]),
+    "BaseRangeInt": (mk_base_range("int"), dom_range_int, ["none", "bool", "int", "intsub", "float", "indexobj", "npint", "str"]),
     "RangeFloat": (mk_range_float, dom_range_float, FLOATISH + ["str", "object"]),
     "RangeFloatConst": (mk_range_float_const, dom_range_float, INTISH),
     "RangeInt": (mk_range_int, dom_range_int, ["none", "bool", "int", "intsub", "float", "indexobj", "npint", "str", "object"]),
